@@ -1,7 +1,7 @@
 (* C04 -- Motions and kills cover exactly the grapheme, word, line or search
    range named. Property theorems only (the clauses without a theorem are
    decided by the oracle over the correspondence stream, see MANIFEST). *)
-From RL Require Import UData Uax29 LineBuffer LineBufferOps LineBufferProofs LineBufferTotal LineBufferRanges LineBufferAll KillCopy.
+From RL Require Import UData Uax29 LineBuffer LineBufferOps LineBufferProofs LineBufferTotal LineBufferRanges LineBufferAll KillCopy CharSearchSpec.
 
 (* character motion by a count n >= 1 from a character boundary lands exactly
    after the first min(n, remaining) whole clusters *)
@@ -62,6 +62,33 @@ Theorem C04_kill_is_copy : forall (seg : str -> list str),
                   /\ exists l r', buf b = l ++ t ++ r' /\ buf b' = l ++ r' /\ pos b' = blen l /\ cap b' = cap b /\ grow b' = grow b.
 Proof. exact kill_is_copy. Qed.
 Print Assumptions C04_kill_is_copy.
+
+(* character searches over occurrences ([occ c s] = how often c occurs in s). Backward (vi F): the search lands on an
+   occurrence of c before the cursor with exactly min(n, occurrences before the cursor) - 1 further occurrences between it and
+   the cursor: the n-th counted from the cursor, or the farthest when there are fewer (Iterator::take(n).last()); it finds
+   nothing exactly when c does not occur there *)
+Theorem C04_char_search_backward :
+  forall (seg : str -> list str) (b : lb) (l r : str) (c : N) (n : nat),
+  buf b = l ++ r -> pos b = blen l -> 1 <= n ->
+  (occ c l = 0 -> search_char_pos seg b (CsBackward c) n = Ok None)
+  /\ (1 <= occ c l ->
+      exists a rest, l = a ++ c :: rest
+        /\ search_char_pos seg b (CsBackward c) n = Ok (Some (blen a))
+        /\ occ c rest = Nat.min n (occ c l) - 1).
+Proof. exact search_backward_spec. Qed.
+Print Assumptions C04_char_search_backward.
+
+(* forward (vi f): the same towards the end, the search starting AFTER the cluster under the cursor *)
+Theorem C04_char_search_forward :
+  forall (seg : str -> list str) (b : lb) (l cc r2 : str) (gs : list str) (c : N) (n : nat),
+  buf b = l ++ cc ++ r2 -> pos b = blen l -> seg (cc ++ r2) = cc :: gs -> 1 <= blen cc -> 1 <= n ->
+  (occ c r2 = 0 -> search_char_pos seg b (CsForward c) n = Ok None)
+  /\ (1 <= occ c r2 ->
+      exists a rest, r2 = a ++ c :: rest
+        /\ search_char_pos seg b (CsForward c) n = Ok (Some (blen l + blen cc + blen a))
+        /\ occ c a = Nat.min n (occ c r2) - 1).
+Proof. exact search_forward_spec. Qed.
+Print Assumptions C04_char_search_forward.
 
 (* KNOWN FINDING K_word_count (see known_findings.json): a word motion with a
    count is not the single motion iterated -- "a b,c", `2w` vs `w w` *)
